@@ -36,3 +36,4 @@ from units_math import *   # noqa
 from units_utils import *  # noqa
 from units_air import *  # noqa
 from units_crypto import *  # noqa
+from units_verifier import *  # noqa
